@@ -540,7 +540,8 @@ pub fn run_section(rep: &mut Report, cli: &Cli, props: u32) {
         e2::replay_into(rep, &m, &starts, rv);
         return;
     }
-    let depth = if th { 6 } else { 4 };
+    // (depth 6 needs more than the 40 GB address-space cap: about 8.4 successors per state and a ledger copy in every state)
+    let depth = if th { 5 } else { 4 };
     let o = e2::explore(rep, "position-order histories over two markets", &m, starts, &e2::Config { depth, max_states: 6_000_000 }, json!({"machine": "perp", "thorough": th}));
     let mut needed = vec!["Create:ok", "Exec:ok", "Exec:err", "Close:ok", "Liquidate:ok", "Liquidate:err"];
     if props & P23 != 0 {
